@@ -910,8 +910,15 @@ func clearDetector() {
 	}
 
 	op := pb.StationOperations_Clear
+	// The detector converts every message into session details before it looks at the
+	// operation and drops messages without a valid protocol and phantom address, so a bare
+	// {operation: Clear} was silently ignored. Send placeholders that pass that conversion.
+	ipProto := pb.IPProto_Tcp
+	phantom := net.IPv6unspecified.String()
 	msg := &pb.StationToDetector{
 		Operation: &op,
+		Proto:     &ipProto,
+		PhantomIp: &phantom,
 	}
 
 	s2d, err := proto.Marshal(msg)
